@@ -27,7 +27,7 @@ RULE = ("every model of the template family (lag/lead structure x cross shift x 
         "and deviation mode; distinct non-trivial case = (model, input pattern, mode)")
 MANIFEST_ENTRY = dict(level="exploration", design="DESIGN.md section 4 / C01",
     technique="bounded-exhaustive enumeration of generated linear RE models x input patterns; residual substitution into the harness's own equations, restart consistency, superposition, independent eigenvalue classification",
-    text="For every model of a generated family (quick 450 structures: 1-3 variables, lags/leads up to 2, 5 coefficient regimes, measurement blocks, log-variable versions; thorough ~2000) the reported system stability must equal the classification from the harness's own companion pencil; for every determinate model every basis input (deviation bound 1) and listed/all pairs (bound 2) is simulated with the real first-order simulator in level and deviation mode and checked: every transition and measurement equation holds in every period with leads read from the continued path, inputs are returned unchanged, level = own steady state + deviation, unanticipated shocks at later dates equal a restart, responses superpose, and the path decays at the oracle's stable-root rate over 200 continuation periods.",
+    text="For every model of a generated family (quick 450 structures: 1-3 variables, lags/leads up to 2, 5 coefficient regimes, measurement blocks, log-variable versions; thorough ~2000) the reported system stability must equal the classification from the harness's own companion pencil; for every determinate model every basis input (deviation bound 1) and listed/all pairs (bound 2) is simulated with the real first-order simulator in level and deviation mode and checked: every transition and measurement equation holds in every period with leads read from the continued path, inputs are returned unchanged, level = own steady state + deviation, unanticipated shocks at later dates equal a restart, responses superpose, variant k of a two-variant model equals the single-variant model with variant k's parameters and inputs, and the path decays at the oracle's stable-root rate over 200 continuation periods.",
     note="Trusted: scipy's generalized eigenvalues on the harness's own pencil, numpy arithmetic, ref/linre.py. Parameter points within 1e-4 of the unit circle are excluded (counted). Not covered: more than 3 variables, lags/leads above 2, non-generic rank failures of Blanchard-Kahn.")
 ASSUMPTIONS = ["Blanchard-Kahn counting (generic rank condition) characterises determinacy of the generated family",
                "uniqueness of the stable solution: a non-explosive path that satisfies the equations from the given initial condition is the solution"]
@@ -348,7 +348,84 @@ def check_model(spec, res, ctx, only=None):
         if not np.isfinite(dmax) or dist[-1] > bound or (rho <= 0.96 and d2 > d1 * (1 + 1e-6) + 1e-8):
             bad("explosive", "distance from steady state at the end of %d periods is %.3e (oracle bound %.3e, largest stable root %.4f, "
                 "window maxima %.3e -> %.3e)" % (H_LONG, dist[-1], bound, rho, d1, d2), input_kind="long", mode=True)
+    # (g) parameter variants: variant k of a two-variant model simulates like the single-variant model with variant
+    #     k's parameters and variant k's own shocks / initial conditions
+    if only is None or only == "variants":
+        try:
+            check_variants(spec, m, S, res, bad)
+        except Exception as e:
+            bad("simulation_exception", "variants: %s: %s" % (type(e).__name__, str(e)[:300]), input_kind="variants", error=type(e).__name__)
     res.sample({"model": name, "singles": len(S), "pairs": len(pairs), "class": cls["kind"]})
+
+
+def scaled_spec(spec, factor):
+    d = spec.to_json()
+    for e in d["eqs"]:
+        e["terms"] = [(j, s_, c * (factor if abs(c) != 1.0 else 1.0)) for (j, s_, c) in e["terms"]]
+    sp = linre.LinSpec.from_json(d)
+    sp.name = spec.name + "_scaled"
+    return sp
+
+
+def check_variants(spec, m, S, res, bad):
+    spec_b = scaled_spec(spec, 0.93)
+    cls_b = spec_b.classify()
+    if cls_b["kind"] != "determinate" or cls_b.get("num_unit", 0) != spec.classify().get("num_unit", 0):
+        res.exclude("variant_parameters_not_determinate")
+        return
+    m_b = build(spec_b)
+    with contextlib.redirect_stdout(io.StringIO()):
+        m2 = m.copy()
+        m2.alter_num_variants(2)
+        pa, pb = spec.param_values(), spec_b.param_values()
+        m2.assign(**{k: [pa[k], pb[k]] for k in pa})
+        m2.steady()
+        m2.solve()
+    n_per = T_SHOCK + 8
+    span = START >> (START + n_per - 1)
+    amp = 0.1 if spec.log else 1.0
+    inputs = [tuple(x for x in S if x[0] == "u")[:1] + tuple(x for x in S if x[0] == "a" and x[2] == 3)[:1] + tuple(x for x in S if x[0] == "x")[:1],
+              tuple(x for x in S if x[0] == "u")[-1:] + tuple(x for x in S if x[0] == "a" and x[2] == 2)[-1:]]
+    for dev in (False, True):
+        singles_out = [Sim(spec, m, inputs[0], dev, n_per), Sim(spec_b, m_b, inputs[1], dev, n_per)]
+        res.ev(3)
+        # two-variant databox: column k holds variant k's inputs
+        db2 = ir.Databox.steady(m2, span, deviation=dev)
+        L = spec.max_lag()
+        for n_ in singles_out[0].names():
+            if n_[0] not in "ea" and n_[0] != "v":
+                continue
+            if n_ not in db2:
+                continue
+            cols = []
+            for k in range(2):
+                a = singles_out[k].db_in[n_].get_data_from_until((START - L, START + n_per - 1))[:, 0] if n_ in singles_out[k].db_in else np.zeros(n_per + L)
+                cols.append(a)
+            arr2 = np.column_stack(cols)
+            if n_[0] == "v":
+                # only the initial conditions are inputs
+                ser = db2[n_]
+                if ser.num_variants == 1:
+                    ser.alter_num_variants(2)
+                for r_ in range(L):
+                    ser[START - L + r_] = arr2[r_:r_ + 1, :]
+            else:
+                db2[n_] = ir.Series(start=START - L, values=np.nan_to_num(arr2))
+        with contextlib.redirect_stdout(io.StringIO()):
+            out2 = m2.simulate(db2, span, method="first_order", deviation=dev)
+        res.nt((spec.name, "variants", dev))
+        res.count("variant_runs")
+        for n_ in singles_out[0].names():
+            if n_[0] not in "vo":
+                continue
+            a2 = out2[n_].get_data_from_until((START, START + n_per - 1))
+            for k in range(2):
+                col = a2[:, k] if a2.shape[1] > 1 else a2[:, 0]
+                b = singles_out[k].out[n_].get_data_from_until((START, START + n_per - 1))[:, 0]
+                if not np.allclose(col, b, rtol=1e-8, atol=1e-9):
+                    bad("variant_mismatch", "dev=%s %s variant %d: two-variant run %s, single-variant model with the same parameters and inputs %s"
+                        % (dev, n_, k, np.round(col[:6], 8).tolist(), np.round(b[:6], 8).tolist()), input_kind="variants", mode=dev)
+                    return
 
 
 def shard(item, res, ctx):
@@ -373,7 +450,7 @@ def run(ctx, total, info):
     info["floors"] = {"models": (len(fam), 300), "determinate": (c.get("oracle_determinate", 0), 150),
                       "indeterminate": (c.get("oracle_indeterminate", 0), 15), "no_stable": (c.get("oracle_no_stable", 0), 30),
                       "distinct_cases": (len(total.nontrivial), 8000),
-                      "unit_root_models": (c.get("models_with_unit_roots", 0), 5)}
+                      "unit_root_models": (c.get("models_with_unit_roots", 0), 5), "variant_runs": (c.get("variant_runs", 0), 300)}
 
 
 def replay(case):
